@@ -7,7 +7,7 @@ from ..gen import knots as gk
 from ..ref import bspl as rb
 
 LEVEL = "exploration"
-RULE = ("knot vectors (p 0..12, spans over up to 6 decades, interior multiplicities 1..p) x points (interior, on "
+RULE = ("knot vectors (p 0..12, spans over up to 6 decades (a quarter of the cases: up to 14 decades), interior multiplicities 1..p) x points (interior, on "
         "knots, ends, adjacent floats) x derivative orders 0..p+2; non-trivial: a point on a knot/end/adjacent float, "
         "or a multiple knot in the vector, or derivative order >= 2, or p >= 7; distinct by SHA-1 of the spec")
 ASSUMPTIONS = ["reference: Cox-de Boor recursion in exact rational arithmetic (vp/ref/bspl.py), right-continuous, "
@@ -62,6 +62,9 @@ def check_active(spec, ctx):
         ctx.close("active_ev_array", ev_arr[:, m], Df[0], rtol=0, atol=16 * (p + 1) * EPS)
         cls |= gk.point_classes(kvs, x)
     ctx.flag(*cls)
+    _br = kvs["breaks"]
+    _sp = [b - a for a, b in zip(_br[:-1], _br[1:])]
+    ctx.flag("span_ratio>=1e9" if min(_sp) * 1e9 <= max(_sp) else None, "span<=1e-12" if min(_sp) <= 1e-12 else None)
     ctx.flag("p>=7" if p >= 7 else None, "mult>1" if gk.has_multiple_knots(kvs) else None,
              "nder>=2" if nder >= 2 else None, "nder>p" if nder > p else None, "p=0" if p == 0 else None)
     ctx.nontrivial = bool(cls) or gk.has_multiple_knots(kvs) or nder >= 2 or p >= 7
@@ -69,7 +72,8 @@ def check_active(spec, ctx):
 
 @st.composite
 def strat_active(draw, pmax=12):
-    kvs = draw(gk.knotvec(pmin=0, pmax=pmax, nmax=7))
+    # one case in four: extreme grading (spans down to 1e-14 of the largest one, "arbitrarily non-uniform")
+    kvs = draw(gk.knotvec(pmin=0, pmax=pmax, nmax=7, decades=draw(st.sampled_from([6, 6, 6, 14]))))
     pts = draw(gk.points_in(kvs, 1, 5))
     nder = draw(st.integers(0, kvs["p"] + 2))
     return {"kv": kvs, "points": pts, "nder": nder}
@@ -197,7 +201,7 @@ def _deriv_continuous(kvs, x, k):
 
 @st.composite
 def strat_routes(draw):
-    kvs = draw(gk.knotvec(pmin=0, pmax=8, nmax=5, decades=4))
+    kvs = draw(gk.knotvec(pmin=0, pmax=8, nmax=5, decades=draw(st.sampled_from([4, 4, 4, 14]))))
     pts = draw(gk.points_in(kvs, 1, 5))
     nder = draw(st.integers(0, kvs["p"] + 1))
     coeffs = [draw(st.integers(-32, 32)) / 4.0 for _ in range(60)]
